@@ -14,7 +14,10 @@ use core::alloc::Layout;
 
 include!("/verif/kani/common/odd_alloc.rs");
 
+#[cfg(not(verif_big))]
 pub const V: usize = 8;
+#[cfg(verif_big)]
+pub const V: usize = 16;
 
 macro_rules! end_reached {
     () => {
@@ -25,7 +28,8 @@ macro_rules! counting {
     ($(#[$m:meta])* pub fn $name:ident() $body:block) => {
         $(#[$m])*
         #[kani::proof]
-        #[kani::unwind(10)]
+        #[cfg_attr(not(verif_big), kani::unwind(10))]
+#[cfg_attr(verif_big, kani::unwind(19))]
         #[kani::stub(std::alloc::alloc, cnt_alloc)]
         #[kani::stub(std::alloc::dealloc, cnt_dealloc)]
         #[kani::stub(std::alloc::realloc, cnt_realloc)]
@@ -181,7 +185,8 @@ pub fn original_capacity_fns() {
 // ================================================================================== base cases: the public constructors establish I-bm-vec
 // @h props=C01,C02,C04 tier=quick flags=leak group=step note=constructors_establish_the_invariant(with_capacity,from_slice,zeroed,Bytes->BytesMut_copy)
 #[kani::proof]
-#[kani::unwind(10)]
+#[cfg_attr(not(verif_big), kani::unwind(10))]
+#[cfg_attr(verif_big, kani::unwind(19))]
 pub fn ctor_base_cases() {
     unsafe {
         let which: u8 = kani::any();
@@ -455,7 +460,8 @@ unsafe fn split_post(a: &BytesMut, b: &BytesMut) {
 macro_rules! split_family {
     ($name:ident, $st:expr, $counted:expr) => {
         #[kani::proof]
-        #[kani::unwind(10)]
+        #[cfg_attr(not(verif_big), kani::unwind(10))]
+#[cfg_attr(verif_big, kani::unwind(19))]
         pub fn $name() {
             unsafe {
                 let (mut m, g) = $st;
@@ -567,7 +573,8 @@ split_family!(arc_split, st_arc(false), true);
 macro_rules! inplace_family {
     ($name:ident, $st:expr, $counted:expr) => {
         #[kani::proof]
-        #[kani::unwind(10)]
+        #[cfg_attr(not(verif_big), kani::unwind(10))]
+#[cfg_attr(verif_big, kani::unwind(19))]
         pub fn $name() {
             unsafe {
                 let (mut m, g) = $st;
@@ -650,7 +657,8 @@ inplace_family!(arc_inplace, st_arc(false), true);
 // ================================================================================== unsplit of two real neighbours
 // @h props=C01,C02,C03,C04,C07 tier=quick flags=leak group=step note=unsplit_of_adjacent_and_non-adjacent_halves_of_one_shared_buffer
 #[kani::proof]
-#[kani::unwind(10)]
+#[cfg_attr(not(verif_big), kani::unwind(10))]
+#[cfg_attr(verif_big, kani::unwind(19))]
 pub fn arc_unsplit() {
     unsafe {
         // two real handles on one shared buffer: A = [off, off+cap_a) and B starting right at A's capacity end or
@@ -715,7 +723,8 @@ unsafe fn st_vec_at(off: usize, len: usize) -> (BytesMut, G) {
 macro_rules! vec_freeze_case {
     ($name:ident, $off:expr, $len:expr) => {
         #[kani::proof]
-        #[kani::unwind(10)]
+        #[cfg_attr(not(verif_big), kani::unwind(10))]
+#[cfg_attr(verif_big, kani::unwind(19))]
         pub fn $name() {
             unsafe {
                 let (m, g) = st_vec_at($off, $len);
@@ -768,7 +777,8 @@ unsafe fn st_frozen() -> (Bytes, G) {
 
 // @h props=C01,C02,C03,C07,C08,C18 tier=quick flags=leak group=step note=freeze_shared_form_is_a_relabel_that_keeps_the_reference(incl._empty_parts)
 #[kani::proof]
-#[kani::unwind(10)]
+#[cfg_attr(not(verif_big), kani::unwind(10))]
+#[cfg_attr(verif_big, kani::unwind(19))]
 pub fn arc_freeze() {
     unsafe {
         let (m, g) = st_arc(false);
@@ -795,7 +805,8 @@ pub fn arc_freeze() {
 
 // @h props=C01,C02,C03,C04,C07,C08 tier=quick flags=leak group=step note=frozen_vtable:clone/into_vec/into_mut/is_unique/drop_from_arbitrary_state
 #[kani::proof]
-#[kani::unwind(10)]
+#[cfg_attr(not(verif_big), kani::unwind(10))]
+#[cfg_attr(verif_big, kani::unwind(19))]
 pub fn frozen_ops() {
     unsafe {
         let (b, g) = st_frozen();
@@ -876,7 +887,8 @@ pub fn frozen_ops() {
 // ================================================================================== conversions to Vec and drop
 // @h props=C01,C02,C03 tier=quick flags=leak group=step note=From<BytesMut>_for_Vec_inline_vec_form
 #[kani::proof]
-#[kani::unwind(10)]
+#[cfg_attr(not(verif_big), kani::unwind(10))]
+#[cfg_attr(verif_big, kani::unwind(19))]
 pub fn vec_into_vec() {
     unsafe {
         let (m, g) = st_vec();
@@ -893,7 +905,8 @@ pub fn vec_into_vec() {
 
 // @h props=C01,C02,C03,C08 tier=quick flags=leak group=step note=From<BytesMut>_for_Vec_shared_form_any_refcount
 #[kani::proof]
-#[kani::unwind(10)]
+#[cfg_attr(not(verif_big), kani::unwind(10))]
+#[cfg_attr(verif_big, kani::unwind(19))]
 pub fn arc_into_vec() {
     unsafe {
         let (m, g) = st_arc(false);
@@ -918,7 +931,8 @@ pub fn arc_into_vec() {
 
 // @h props=C02,C03 tier=quick flags=leak group=step note=Drop_for_BytesMut_both_forms
 #[kani::proof]
-#[kani::unwind(10)]
+#[cfg_attr(not(verif_big), kani::unwind(10))]
+#[cfg_attr(verif_big, kani::unwind(19))]
 pub fn drop_step() {
     unsafe {
         let arc: bool = kani::any();
@@ -1021,7 +1035,8 @@ recycle!(recycle_arc_split, true, 3);
 
 // @h props=C04,C01 tier=quick flags=witness group=step
 #[kani::proof]
-#[kani::unwind(10)]
+#[cfg_attr(not(verif_big), kani::unwind(10))]
+#[cfg_attr(verif_big, kani::unwind(19))]
 pub fn witness() {
     unsafe {
         let (mut m, g) = st_arc(false);
@@ -1035,7 +1050,8 @@ pub fn witness() {
 macro_rules! ooc {
     ($name:ident, $st:expr, |$m:ident, $g:ident| $body:block) => {
         #[kani::proof]
-        #[kani::unwind(10)]
+        #[cfg_attr(not(verif_big), kani::unwind(10))]
+#[cfg_attr(verif_big, kani::unwind(19))]
         pub fn $name() {
             unsafe {
                 let (mut $m, $g) = $st;
@@ -1091,7 +1107,8 @@ ooc!(ooc_resize_huge, st_vec(), |m, g| {
 
 // @h props=C13,C01 tier=quick flags=leak group=ooc note=documented_no-ops:truncate_beyond_len_and_failed_try_reclaim_leave_the_handle_bit-identical
 #[kani::proof]
-#[kani::unwind(10)]
+#[cfg_attr(not(verif_big), kani::unwind(10))]
+#[cfg_attr(verif_big, kani::unwind(19))]
 pub fn noop_truncate() {
     unsafe {
         let (mut m, g) = st_arc(false);
@@ -1136,7 +1153,8 @@ unsafe fn observe(m: &BytesMut) {
 macro_rules! observed_overflow {
     ($name:ident, $st:expr, |$m:ident, $n:ident| $call:expr) => {
         #[kani::proof]
-        #[kani::unwind(10)]
+        #[cfg_attr(not(verif_big), kani::unwind(10))]
+#[cfg_attr(verif_big, kani::unwind(19))]
         #[kani::stub(alloc::raw_vec::capacity_overflow, observing_capacity_overflow)]
         pub fn $name() {
             unsafe {
